@@ -12,8 +12,36 @@ PRIV_SHARDS = {'A/10', 'A/12', 'A/14', 'A/16', 'A/32', 'A/36', 'A/1b', 'A/25', '
 SCR_SYM = {'scr': 0x31, 'nsacr': 0x3FFF, 'cpacr': 0x0FFFFFFF}  # SCR.NS, FW, AW; coprocessor access controls
 
 
+UNPRIV_QUICK = ['LdrtA1', 'StrtA1', 'LdrbtA1', 'StrhtA1', 'LdrtT1', 'StrbtT1', 'LdrshtT1']
+UNPRIV_ALL = ['LdrtA1', 'LdrtA2', 'StrtA1', 'StrtA2', 'LdrbtA1', 'LdrbtA2', 'StrbtA1', 'StrbtA2', 'LdrtT1', 'LdrbtT1',
+              'StrtT1', 'StrbtT1', 'LdrhtA1', 'LdrhtA2', 'StrhtA1', 'StrhtA2', 'LdrsbtA1', 'LdrsbtA2', 'LdrshtA1',
+              'LdrshtA2', 'LdrhtT1', 'LdrsbtT1', 'LdrshtT1', 'StrhtT1']
+
+
+def unpriv_units(tier):
+    """last clause of the property: LDRT/STRT & co executed in ANY mode are checked with User permissions -- the
+    rows run through the real emulate_cycle with the MPU ON (symbolic region: enable, base, subregion-disable bits,
+    AP; SCTLR.BR symbolic) against the one-step oracle whose memory helpers apply the B5 protection rules with
+    ispriv = FALSE for these instructions (abort: no transfer, no write-back, Data Abort entry, DFSR/DFAR)"""
+    from vf import famcheck, step
+    T = list(step.FAMILIES)
+    step.load_tables(T)
+    from spec.isa import ISA
+    rows = [r for r in (UNPRIV_QUICK if tier == 'quick' else UNPRIV_ALL) if r in ISA]
+    fams = set(ISA[r].family for r in rows)
+    us = famcheck.family_units(fams, [7], T, only=rows, tag='/unpriv-mpu/32B', mpu=1, mpu_rsize=[4])
+    if tier == 'thorough':
+        us += famcheck.family_units(fams, [7], T, only=rows, tag='/unpriv-mpu/256B-subregions', mpu=1, mpu_rsize=[7])
+        us += famcheck.family_units(fams, [7], T, only=UNPRIV_QUICK[:4], tag='/unpriv-mpu/2-regions', mpu=2,
+                                    mpu_rsize=[9, 4])
+    for u in us:
+        u.max_seconds = 3000
+    return us
+
+
 def units(tier, seed=0):
     us = c18.shard_units(tier, CLAIMS, mode='usr', tag='/usr', seed=seed, always=PRIV_SHARDS, sym_sys=SCR_SYM)
+    us += unpriv_units(tier)
     if tier == 'thorough':
         us += c18.shard_units('quick', CLAIMS, mode='usr', tag='/usr-nosec', sec=False, seed=seed, always=PRIV_SHARDS)
     return us
@@ -25,10 +53,14 @@ META = {
                    'encodings included; all registers, flags, memory symbolic): afterwards either the processor is '
                    'still in User mode with A/I/F, every non-User banked register, every SPSR, ELR_hyp and EVERY '
                    'system/protection/translation register (generic snapshot of the Registers object) unchanged, or '
-                   'it is in a privileged exception mode at that exception vector with SPSR.M = User.',
+                   'it is in a privileged exception mode at that exception vector with SPSR.M = User. Unprivileged '
+                   'loads/stores executed in privileged modes are stepped with the MPU enabled and compared with the '
+                   'oracle that applies User permissions (and no background region) to their accesses.',
     'bounds': ['as C18 (shards; windowed register lists)', 'SCR.{NS,FW,AW} symbolic (secure and non-secure); quick: 72 sampled shards + the 29 shards holding the privileged-state instructions; thorough: all shards + a no-security-extension sample',
-               'MPU off; unprivileged load/store variants with the MPU on are covered by C14 (privilege passed to the '
-               'permission check) and the LDRT/STRT rows of C02'],
+               'sweep: MPU off', 'unprivileged load/store rows (LDRT/STRT/LDRBT/STRBT/LDRHT/STRHT/LDRSBT/LDRSHT, ARM and '
+               'Thumb) in every mode with the MPU ON: one symbolic region of 32 bytes (quick) / also 256 bytes with '
+               'subregions and two nested regions (thorough), SCTLR.BR symbolic; the instruction fetch is assumed '
+               'permitted'],
     'outside': ['multi-instruction programs as such (covered by induction: the post-state of the first disjunct is '
                 'again a valid User-mode state)'],
     'stubs': stubs.STUBS_DOC,
